@@ -2,7 +2,7 @@
    Only theorem statements, each closed by [exact <lemma>], and Print Assumptions.
    [orc]/[cok] = the compiled pattern routes of utils/fmtfilter (oracle, any functions). *)
 From Coq Require Import NArith List Permutation.
-From LV Require Import lib.Bytes model.MultiDb proofs.MultiDbProofs.
+From LV Require Import lib.Bytes model.MultiDb spec.MultiDbSpec proofs.MultiDbProofs proofs.MultiDbDataProofs.
 Import ListNotations.
 
 (* RouteOf terminates: within the fuel 2 + len(req) the loop returns a route, provided the default
@@ -46,6 +46,16 @@ Theorem C26_isolation_keys : forall t1 t2,
   conflicting t1 t2 = false -> forall k1 k2, t1 ++ k1 <> t2 ++ k2.
 Proof. exact conflicting_false_disjoint. Qed.
 
+(* Data isolation at run level.  MultiDbSpec.ref_run computes what every Get returns from an abstract
+   map keyed by (database, REQUEST, user key): a successful Put through a request sets its own entry,
+   dropping a database clears that database's entries, nothing else touches the map.  The model —
+   one raw key space per database, keys prefixed with the table — gives the same observations for
+   every history: a Get returns the latest Put of that key through the SAME request since the
+   database was last dropped, whatever was put through other requests. *)
+Theorem C26_data_isolation : forall orc newp avail ops,
+  run orc newp avail init_state ops = ref_run orc newp avail ops.
+Proof. exact data_isolation. Qed.
+
 (* Re-opening: a recorded request is re-opened successfully with the same route and without any
    change of the databases, by any producer that routes it alike (C26_route_deterministic:
    e.g. the producer built after a restart from the same routing table). *)
@@ -54,6 +64,22 @@ Theorem C26_reopen_same : forall orc p' dbs req rt d,
   get_db (r_type rt, r_name rt) dbs = Some d -> In (req, r_table rt) (d_records d) ->
   exists dbs', open_db orc p' dbs req = (dbs', OOk rt) /\ forall l, get_db l dbs' = get_db l dbs.
 Proof. exact reopen_same. Qed.
+
+(* End to end: a session under routing table t1 (any operations but a restart), then a restart whose
+   routing table t2 is the same Go map in another iteration order: the new producer is constructed,
+   Verify succeeds, and every request recorded in any database is re-opened successfully into the
+   same database and table, leaving all databases unchanged. *)
+Theorem C26_restart_end_to_end : forall orc cok avail t1 t2 p1 ops1,
+  Permutation t1 t2 -> NoDup (map fst t1) -> new_producer cok avail t1 = Some p1 ->
+  forallb (fun o => negb (is_new o)) ops1 = true ->
+  let st := exec orc (new_producer cok) avail init_state (ONew t1 :: ops1 ++ [ONew t2]) in
+  exists p2, s_prod st = Some p2 /\ new_producer cok avail t2 = Some p2 /\
+    verify orc p2 (s_dbs st) = true /\
+    forall l d req tbl, get_db l (s_dbs st) = Some d -> In (req, tbl) (d_records d) ->
+      exists rt dbs', open_db orc p2 (s_dbs st) req = (dbs', OOk rt) /\
+                      (r_type rt, r_name rt) = l /\ r_table rt = tbl /\
+                      forall l', get_db l' dbs' = get_db l' (s_dbs st).
+Proof. exact restart_end_to_end. Qed.
 
 (* Verify succeeds exactly when every recorded request is still routed to the database type,
    name and table it was recorded with. *)
@@ -86,11 +112,26 @@ Example C26_history_nontrivial :
      BVerify true].
 Proof. vm_compute. reflexivity. Qed.
 
+Example C26_data_nontrivial :
+  (* z/t and y/u live in databases dz / dy; a put through z/t is read back through z/t only *)
+  let z_t := [122; 47; 116]%N in let z_u := [122; 47; 117]%N in
+  run OldWitness.orc (new_producer OldWitness.cok) [OldWitness.main] init_state
+      [ONew OldWitness.tbl1; OPut z_t [1]%N [9]%N; OGet z_u [1]%N; OGet z_t [1]%N; ODrop z_u; OGet z_t [1]%N]
+  = [BNew true;
+     BOpen (OOk (mkRoute OldWitness.main [100; 122]%N [116]%N false));
+     BGet (OOk (mkRoute OldWitness.main [100; 122]%N [117]%N false)) None;
+     BGet (OOk (mkRoute OldWitness.main [100; 122]%N [116]%N false)) (Some [9]%N);
+     BOpen (OOk (mkRoute OldWitness.main [100; 122]%N [117]%N false));
+     BGet (OOk (mkRoute OldWitness.main [100; 122]%N [116]%N false)) None].
+Proof. vm_compute. reflexivity. Qed.
+
 Print Assumptions C26_route_terminates.
 Print Assumptions C26_route_deterministic.
 Print Assumptions C26_reachable_records_wf.
 Print Assumptions C26_open_recorded.
 Print Assumptions C26_isolation.
 Print Assumptions C26_isolation_keys.
+Print Assumptions C26_data_isolation.
 Print Assumptions C26_reopen_same.
+Print Assumptions C26_restart_end_to_end.
 Print Assumptions C26_verify_iff.
